@@ -407,24 +407,46 @@ package meta
 //@ ghost pred stHasParent() bool
 
 //@ callrule c01_expiry_answer in objectStatusDirect
-//@   property C01
+//@   property C01 C07
 //@   callee metabase.isExpired
 //@   pureeffect
 //@   defines result == stExpired()
 //@ callrule c01_lock_answer in objectStatusDirect
-//@   property C01
+//@   property C01 C07
 //@   callee metabase.objectLocked
 //@   pureeffect
 //@   defines result == stLocked()
 //@ callrule c01_mark_answer in objectStatusDirect
-//@   property C01
+//@   property C01 C07
 //@   callee metabase.inGarbage
 //@   pureeffect
 //@   defines result == stMark() && result <= statusTombstoned
 //@ func objectStatusDirect
-//@   property C01
+//@   property C01 C07
 //@   ensures [one_of_the_four_statuses] result <= statusExpired
 //@   ensures [live_lock_overrides_expiry_and_marks] result == ite(stExpired(), ite(stLocked(), statusAvailable, statusExpired), ite(stMark() != statusAvailable && stLocked(), statusAvailable, stMark()))
+
+// ... where "expired at the current epoch" is: the expiration attribute is present, reads as a
+// number, and the current epoch is strictly beyond it - for every 64-bit value (an expiration
+// of 2^64-1, "never", included). Objects and locks are judged by this one function (C07: a
+// lock is live exactly while it is not expired).
+//@ ghost pred expAttrPresent() bool
+//@ ghost pred expAttrParses() bool
+//@ ghost pred expAttrEpoch() uint64
+//@ callrule c01_expiration_attribute in isExpired
+//@   property C01 C07
+//@   callee metabase.getObjAttribute
+//@   pureeffect
+//@   defines (result != nil) == expAttrPresent()
+//@ callrule c01_expiration_number in isExpired
+//@   property C01 C07
+//@   callee strconv.ParseUint
+//@   pureeffect
+//@   defines (err == nil) == expAttrParses() && res0 == expAttrEpoch()
+//@ func isExpired
+//@   property C01 C07
+//@   mode bv
+//@   ensures [expired_strictly_after_the_expiration_epoch] result == (expAttrPresent() && expAttrParses() && currEpoch > expAttrEpoch())
 
 //@ callrule c01_direct_answer in objectStatusNested
 //@   property C01
